@@ -49,7 +49,7 @@ func init() {
 		CaseTimeout: 240 * time.Second,
 		Run:         runC14,
 		Floors: func(tier string) map[string]int {
-			m := map[string]int{"syncs_judged": 300, "uploads_seen": 150, "restores_seen": 20, "converged_identical": 80, "adopted_service": 20, "hwm_samples": 1000, "client_file": 20, "client_cloud": 20, "batches_over_256": 2, "lost_ack_then_converged": 4, "snapshot_uploads": 20, "background_converged": 4, "fresh_primary_adopted_existing_service": 2, "background_outage_batches": 2, "commit_inside_snapshot_upload": 1, "rel_stale-hwm": 4, "replica_hwm_followed_restore": 2}
+			m := map[string]int{"syncs_judged": 300, "uploads_seen": 150, "restores_seen": 20, "converged_identical": 80, "adopted_service": 20, "hwm_samples": 1000, "client_file": 20, "client_cloud": 20, "batches_over_256": 2, "lost_ack_then_converged": 4, "snapshot_uploads": 20, "background_converged": 4, "fresh_primary_adopted_existing_service": 2, "background_outage_batches": 2, "commit_inside_snapshot_upload": 1, "rel_stale-hwm": 4, "replica_hwm_followed_restore": 2, "background_lost_ack": 1}
 			for _, r := range c14Relations {
 				m["rel_"+r] = 3
 			}
@@ -512,6 +512,11 @@ func runC14(c *core.Case) {
 			if background && !tuningShadow {
 				s.BackupDelay = 5 * time.Millisecond
 				s.BackupFullSyncInterval = 60 * time.Millisecond
+				if c.Index%44 == 32 {
+					// (the lost-acknowledgement burst below needs the cached position map
+					// to live long enough to matter)
+					s.BackupFullSyncInterval = time.Second
+				}
 				if bigBackground {
 					s.BackupFullSyncInterval = litefs.DefaultBackupFullSyncInterval
 				}
@@ -1423,6 +1428,30 @@ func c14Background(c *core.Case, cl *cluster.Cluster, P *c14Node, svc c14Service
 		c.Count("commit_inside_snapshot_upload", 1)
 	}
 	for burst := 0; burst < 4; burst++ {
+		if snapRace && burst == 1 {
+			// the service stores the next upload but its answer is lost, and the
+			// application commits again before the position map is refreshed: the
+			// loop must find out where the service is, not guess from its cached map
+			m0 := P.rec.mark()
+			P.rec.setFault("wrap-lost-ack")
+			if err := commitN(P, 1); err != nil {
+				c.Violate("C14/commit-failed", "background: "+err.Error(), detail(nil))
+				return
+			}
+			for dl := time.Now().Add(10 * time.Second); time.Now().Before(dl); time.Sleep(time.Millisecond) {
+				hit := false
+				for _, e := range P.rec.since(m0) {
+					if e.Fault == "wrap-lost-ack" {
+						hit = true
+					}
+				}
+				if hit {
+					c.Count("background_lost_ack", 1)
+					break
+				}
+			}
+			P.rec.setFault("")
+		}
 		if err := commitN(P, 1+c.Rng.IntN(5)); err != nil {
 			c.Violate("C14/commit-failed", "background: "+err.Error(), detail(nil))
 			return
